@@ -45,7 +45,8 @@ def r2(ctx):
     s = stores[0]
     p_, k_ = s.idx
     rngs = [b.loop_range(l) for l in s.loops]
-    ok = len(s.loops) == 2 and rngs[0] == Range(0, tm.length(data)) and rngs[1] == Range(0, K) \
+    rows = (Range(0, tm.length(data)), Range(0, Idx(Attr(data, "shape"), (tm.ZERO,))))      # len(x) is x.shape[0] for the 2-D data array
+    ok = len(s.loops) == 2 and rngs[0] in rows and rngs[1] == Range(0, K) \
         and p_ == Sym(s.loops[0].target.id) and k_ == Sym(s.loops[1].target.id)
     ctx.check(ok, fi, "the table is filled for every point p in range(len(data)) and every cluster k in range(K)", line=s.stmt.lineno,
               role="table:ranges", expected="result[p, k] for p < len(data), k < K", found=f"[{p_}, {k_}] with ranges {rngs}")
